@@ -178,14 +178,75 @@ def xoracle(case, recs, out, stats):
     return nontrivial
 
 
+def scenario_cases(ctx):
+    """Scenario family of the value layer: several readers of ONE reference (by name, by attribute path from the
+    reference's own space and from the other one, directly and through an uncached cells), all evaluated; one reader
+    is discarded by some edit (clear_at, clear, assignment, new formula, flag change); the reference is edited
+    (changed, deleted, deleted and created again); everything is evaluated again.  Quick: a seeded sample."""
+    cases = []
+    for R in (0, 2):                      # reference of space 0 / of space 1
+        rsp = 0 if R < 2 else 1
+        for via_uncached in (False, True):
+            for hit in ("clearat", "clear", "set", "setformula", "setcached"):
+                for victim in (0, 1):
+                    for edit in ("change", "delete", "recreate"):
+                        cells = [
+                            {"id": 0, "nparams": 0, "cached": True, "allow_none": False, "space": 0,
+                             "body": ("add", ("ra", R), ("lit", 10))},
+                            {"id": 1, "nparams": 0, "cached": not via_uncached, "allow_none": False, "space": 1 - rsp,
+                             "body": ("add", ("ra", R), ("lit", 20))},
+                            {"id": 2, "nparams": 0, "cached": True, "allow_none": False, "space": 0,
+                             "body": ("add", ("call", 1, []), ("lit", 1))},
+                            {"id": 3, "nparams": 0, "cached": True, "allow_none": False, "space": rsp,
+                             "body": ("add", ("rn", R), ("call", 0, []))},
+                        ]
+                        ev = [["eval", "0"], ["eval", "2"], ["eval", "3"], ["eval", "1"]]
+                        v = str(victim if not (via_uncached and victim == 1) else 2)
+                        h = {"clearat": ["clearat", v], "clear": ["clear", v], "set": ["set", v, "=", "7"],
+                             "setformula": ["setformula", v, "(add (ra %d) (lit 30))" % R],
+                             "setcached": ["setcached", v, "0"]}[hit]
+                        e = {"change": [["setref", str(R), "5"]], "delete": [["delref", str(R)]],
+                             "recreate": [["delref", str(R)], ["setref", str(R), "6"]]}[edit]
+                        cases.append({"cells": cells, "refs": {0: 1, 1: 2, 2: 3, 3: 4}, "n_rn": 2, "maxdepth": None,
+                                      "ops": ev + [h] + e + ev,
+                                      "label": "readers-of-one-reference/%s/%s/%s" % (hit, edit, "uncached" if via_uncached else "cached")})
+    if ctx.tier != "thorough":
+        cases = ctx.rng("scenarios").sample(cases, 36)
+    return cases
+
+
 def run(ctx, out):
     from .. import exec_props as X
     sub = core.Outcome()
-    xstats = X.run_family(ctx, sub, XCFG, xoracle, 70, 1500, corpus_name="C02exec")
+    xstats = X.run_family(ctx, sub, XCFG, xoracle, 70, 1500, corpus_name="C02exec", structured=scenario_cases(ctx))
     S.merge(out, sub)
     S.run_struct(ctx, out, "C02", CFG, H, 60, 1200, RULE, ops_range=(14, 30))
     out.coverage["value_layer_mechanism"] = sub.coverage
     out.coverage["evaluations"] = out.coverage.get("evaluations", 0) + sub.coverage.get("evaluations", 0)
+
+
+SEARCH_CFG = dict(XCFG, weights={"eval": 6, "reeval": 5, "set": 2, "clearat": 3, "clear": 1, "setref": 5, "delref": 0.5,
+                                  "setformula": 1, "setcached": 0.3},
+                  no_try_p=1.0, min_ops=14, max_ops=26, min_cells=3, max_cells=6)
+
+
+def search(ctx, out, extra):
+    """the theorem or the correspondence no longer stands: look for a history on which the implementation itself
+    breaks the property (value layer: try-free programs, many attribute-path reads, value edits followed by
+    reference edits and re-evaluations), judged by the fresh-model oracle alone"""
+    from .. import exec_props as X
+    from ..execworld import ExecImpl
+    stats = collections.Counter()
+    for i in range(ctx.n(120, 1500)):
+        case = X.gen_case(ctx.rng("search", i), SEARCH_CFG)
+        impl = ExecImpl(case["cells"], case["refs"], case["n_rn"], case["maxdepth"], log=False)
+        try:
+            recs = [{"op": op, "impl": impl.apply(op)} for op in case["ops"]]
+        finally:
+            impl.close()
+        xoracle(case, recs, extra, stats)
+        if any(f.get("key") is None for f in extra.failures):
+            return
 
 
 def replay(ctx, payload, out):
